@@ -43,6 +43,8 @@ def part_index(expr, recv_var, parts):
 
 
 def run(ctx):
+    from ..frame import check_frame_attrs
+    check_frame_attrs(ctx, 'C05', 'R5')
     P = ctx.prog
     results = {}
     for name in KINDS:
